@@ -13,6 +13,7 @@ import (
 	"encoding/json"
 	"fmt"
 	"os"
+	"os/exec"
 	"sort"
 	"strings"
 	"sync"
@@ -22,7 +23,10 @@ import (
 	"github.com/wolimst/lib-secs2-hsms-go/pkg/parser/sml"
 )
 
-func init() { drivers["conc"] = driverConc }
+func init() {
+	drivers["conc"] = driverConc
+	drivers["conc-cold"] = driverConcCold
+}
 
 type concCall struct {
 	Op  string `json:"op"`
@@ -41,9 +45,19 @@ func newShared() *shared {
 		ast.NewListNode(ast.NewIntNode(2, "y"), "...[0]"), "...[1]")
 	s := &shared{template: t}
 	s.message = ast.NewDataMessage("msg", 1, 1, 2, "H->E", t)
-	s.complete = ast.NewHSMSDataMessage("c", 3, 5, 1, "H<-E",
-		ast.NewListNode(ast.NewASCIINode("text"), ast.NewFloatNode(8, 1.5, -2.25), ast.NewBinaryNode(1, 2, 255)), 77, []byte{9, 8, 7, 6})
-	s.bytes = s.complete.ToBytes()
+	// (more than a page of text, and never encoded or printed before the goroutines get it: nothing is warm.
+	// The bytes for the decoder come from a twin.)
+	mk := func() *ast.DataMessage {
+		return ast.NewHSMSDataMessage("c", 3, 5, 1, "H<-E",
+			ast.NewListNode(ast.NewASCIINode("text"), ast.NewFloatNode(8, 1.5, -2.25), ast.NewBinaryNode(1, 2, 255),
+				ast.NewASCIINode(strings.Repeat("0123456789abcdef", 320))), 77, []byte{9, 8, 7, 6})
+	}
+	s.complete = mk()
+	if h, err := hex.DecodeString(os.Getenv("VERIF_CONC_BYTES")); err == nil && len(h) > 0 {
+		s.bytes = h // a cold process gets them from its parent, so that it has not encoded anything yet
+	} else {
+		s.bytes = mk().ToBytes()
+	}
 	return s
 }
 
@@ -107,10 +121,11 @@ func (s *shared) exec(c concCall, tag string) string {
 				out = dig(norm(msg().FillVariables(vals).String()))
 			}
 		case "SetWaitBit":
-			out = dig(msg().SetWaitBit(false).String())
+			m := msg().SetWaitBit(false)
+			out = dig([]interface{}{m.String(), m.ToBytes()})
 		case "SetSession":
 			m := msg().SetSessionIDAndSystemBytes(4660, []byte{1, 2, 3, 4})
-			out = dig([]interface{}{m.String(), m.SessionID(), m.SystemBytes()})
+			out = dig([]interface{}{m.String(), m.SessionID(), m.SystemBytes(), m.ToBytes()})
 		case "SmlParse":
 			text := strings.NewReplacer(" x ", " x"+tag+" ", " s>", " s"+tag+">", "\n  v\n", "\n  v"+tag+"\n", " y>", " y"+tag+">").Replace(s.message.String())
 			ms, errs, warns := sml.Parse(text)
@@ -136,36 +151,7 @@ func (s *shared) exec(c concCall, tag string) string {
 }
 
 func driverConc(c *Ctx) {
-	f, err := os.Open(c.In)
-	if err != nil {
-		fmt.Fprintln(os.Stderr, "harness:", err)
-		os.Exit(3)
-	}
-	defer f.Close()
-	var configs [][]concCall
-	sc := bufio.NewScanner(f)
-	sc.Buffer(make([]byte, 1<<20), 1<<24)
-	for sc.Scan() {
-		var row struct {
-			All map[string]concCall `json:"all"`
-		}
-		if err := json.Unmarshal(sc.Bytes(), &row); err != nil {
-			fmt.Fprintln(os.Stderr, "harness: bad config:", err)
-			os.Exit(3)
-		}
-		var cs []concCall
-		keys := []string{}
-		for k := range row.All {
-			keys = append(keys, k)
-		}
-		sort.Strings(keys)
-		for _, k := range keys {
-			if row.All[k].Op != "idle" {
-				cs = append(cs, row.All[k])
-			}
-		}
-		configs = append(configs, cs)
-	}
+	configs := readConfigs(c.In)
 	rounds := c.N
 	for i := c.From; i < len(configs); i++ {
 		if !c.want(i) {
@@ -216,4 +202,120 @@ func driverConc(c *Ctx) {
 		c.out.Flush()
 		c.count("conc.configs")
 	}
+}
+
+// conc-cold: every selected configuration in a process of its own, so that the concurrent calls are the first calls
+// the process ever makes into the library (package-level state initialised on first use is shared by all callers).
+// The parent starts this binary again with -only i, one round, -n attempts per configuration; a child killed by a
+// race report or a fatal error is recorded as outcome "abort". One event per configuration: the first attempt that
+// went wrong, or else the last one.
+func driverConcCold(c *Ctx) {
+	rows := readConfigs(c.In)
+	// one configuration per multiset of operations (the objects do not matter for package-level state);
+	// quick: pairs only
+	seen := map[string]bool{}
+	var pick []int
+	for i, cs := range rows {
+		ops := []string{}
+		for _, x := range cs {
+			ops = append(ops, x.Op)
+		}
+		sort.Strings(ops)
+		k := strings.Join(ops, ",")
+		if seen[k] || (c.Tier != "thorough" && len(ops) > 2) {
+			continue
+		}
+		seen[k] = true
+		pick = append(pick, i)
+	}
+	out := make([]J, len(pick))
+	coldBytes := "VERIF_CONC_BYTES=" + hex.EncodeToString(newShared().bytes)
+	var wg sync.WaitGroup
+	sem := make(chan bool, 12)
+	for j := range pick {
+		if !c.want(j) {
+			continue
+		}
+		wg.Add(1)
+		go func(j int) {
+			defer wg.Done()
+			sem <- true
+			defer func() { <-sem }()
+			i := pick[j]
+			cj := []interface{}{}
+			for _, x := range rows[i] {
+				cj = append(cj, J{"op": x.Op, "obj": x.Obj})
+			}
+			for a := 0; a < c.N; a++ {
+				tmp, _ := os.CreateTemp("", "cold-*.ndjson")
+				tmp.Close()
+				cmd := exec.Command(os.Args[0], "conc", "-in", c.In, "-only", fmt.Sprint(i), "-n", "1", "-seed", fmt.Sprint(c.Seed), "-out", tmp.Name())
+				cmd.Env = append(os.Environ(), coldBytes)
+				var stderr strings.Builder
+				cmd.Stderr = &stderr
+				err := cmd.Run()
+				b, _ := os.ReadFile(tmp.Name())
+				os.Remove(tmp.Name())
+				lines := strings.Split(strings.TrimSpace(string(b)), "\n")
+				var last J
+				json.Unmarshal([]byte(lines[len(lines)-1]), &last)
+				if err != nil || last == nil || last["ev"] != "conc" {
+					e := stderr.String()
+					if len(e) > 300 {
+						e = e[:300]
+					}
+					out[j] = J{"ev": "conc", "calls": cj, "solo": []string{}, "got": []string{}, "rounds": 1, "outcome": "abort", "stderr_head": e, "attempt": a}
+					return
+				}
+				delete(last, "variant")
+				last["attempt"] = a
+				out[j] = last
+				if fmt.Sprint(last["got"]) != fmt.Sprint(last["solo"]) {
+					return
+				}
+			}
+		}(j)
+	}
+	wg.Wait()
+	for j, e := range out {
+		if e != nil {
+			e["config"] = pick[j]
+			c.emit(j, e)
+			c.count("cold.configs")
+		}
+	}
+}
+
+func readConfigs(path string) [][]concCall {
+	f, err := os.Open(path)
+	if err != nil {
+		fmt.Fprintln(os.Stderr, "harness:", err)
+		os.Exit(3)
+	}
+	defer f.Close()
+	var configs [][]concCall
+	sc := bufio.NewScanner(f)
+	sc.Buffer(make([]byte, 1<<20), 1<<24)
+	for sc.Scan() {
+		var row struct {
+			All map[string]concCall `json:"all"`
+		}
+		if err := json.Unmarshal(sc.Bytes(), &row); err != nil {
+			fmt.Fprintln(os.Stderr, "harness: bad config:", err)
+			os.Exit(3)
+		}
+		var cs []concCall
+		keys := []string{}
+		for k := range row.All {
+			keys = append(keys, k)
+		}
+		sort.Strings(keys)
+		for _, k := range keys {
+			if row.All[k].Op != "idle" {
+				cs = append(cs, row.All[k])
+			}
+		}
+		configs = append(configs, cs)
+	}
+	return configs
 }
